@@ -10,3 +10,17 @@ bool write_body(const std::string& dest_dir, const std::string& safe_name)
   out.close();
   return out.good();
 }
+
+// R-C12-4: a backslash accepted as the trailing separator
+#include <vector>
+std::string span_name(const std::string& dir, unsigned n) { return dir + "unused_" + std::to_string(n) + ".bin"; }
+bool extract_to(const std::vector<std::string>& args)
+{
+  std::string dest_dir(args[1]);
+  if (dest_dir.empty())
+    return false;
+  const char last = dest_dir.back();
+  if (last != '/' && last != '\\')
+    dest_dir.push_back('/');
+  return !span_name(dest_dir, 2).empty();	// BAD: dest_dir may end in a backslash
+}
